@@ -1,7 +1,7 @@
 (* Inst_C17.v — the lint model instantiated with the regenerated tables (Gen/LintTables.v), and the
    decidable facts about those tables that the generic theorems of Proofs/LintP.v assume. *)
 From Coq Require Import List NArith Bool.
-From GV Require Import Model.Lint Gen.LintTables.
+From GV Require Import Model.Lint Proofs.LintP Gen.LintTables.
 Import ListNotations.
 Local Open Scope N_scope.
 
@@ -24,3 +24,47 @@ Definition onb (f : list ch -> list ch) (s : list N) : list N := encode (f (deco
 Definition fix_case (f : list ch -> list ch) (c : list N * list N) : bool := nlist_eqb (onb f (fst c)) (snd c).
 Definition chk_case (f : list ch -> list viol) (c : list N * list (N * N)) : bool :=
   vlist_eqb (viols_N (f (decode (fst c)))) (snd c).
+
+(* ---- facts about the regenerated tables (complete evaluation of finite tables) ---- *)
+
+(* every upper-case image in the table is a letter, is neither quote character nor the newline, and is its own image *)
+Definition up_entry_ok (kv : N * N) : bool :=
+  let u := snd kv in
+  letter u && negb (u =? 39) && negb (u =? 34) && negb (u =? 10) &&
+  match upper u with Some u' => u' =? u | None => false end.
+
+Lemma up_tab_ok : forallb up_entry_ok upper_ascii_tab = true.
+Proof. vm_compute. reflexivity. Qed.
+
+Lemma up_entry : forall x u, upper x = Some u -> up_entry_ok (x, u) = true.
+Proof.
+  intros x u H. apply assoc_in in H. pose proof up_tab_ok as T. rewrite forallb_forall in T. apply T. exact H.
+Qed.
+
+Lemma up_letter : forall x u, upper x = Some u -> letter u = true.
+Proof.
+  intros x u H. apply up_entry in H. unfold up_entry_ok in H. cbn [snd] in H.
+  repeat (apply andb_prop in H; destruct H as [H ?]). exact H.
+Qed.
+
+Lemma up_noquote : forall x u, upper x = Some u -> u <> 39 /\ u <> 34 /\ u <> 10.
+Proof.
+  intros x u H. apply up_entry in H. unfold up_entry_ok in H. cbn [snd] in H.
+  repeat (apply andb_prop in H; destruct H as [H ?]).
+  repeat split; apply N.eqb_neq; apply negb_true_iff; assumption.
+Qed.
+
+Lemma up_idem : forall x u, upper x = Some u -> upper u = Some u.
+Proof.
+  intros x u H. apply up_entry in H. unfold up_entry_ok in H. cbn [snd] in H.
+  apply andb_prop in H. destruct H as [_ H]. destruct (upper u) as [u'|]; [|discriminate].
+  apply N.eqb_eq in H. subst. reflexivity.
+Qed.
+
+(* the keyword table holds upper-case ASCII letters only (so that a converted keyword is a fixed point) *)
+Lemma keywords_upper : forallb (forallb (fun b => (65 <=? b) && (b <=? 90))) keywords_tab = true.
+Proof. vm_compute. reflexivity. Qed.
+
+(* space and tab are spaces (formatSQL's indentation is removed again by TrimSpace) *)
+Lemma space_32_9 : space 32 = true /\ space 9 = true /\ space 10 = true.
+Proof. vm_compute. repeat split. Qed.
